@@ -61,6 +61,14 @@ pub struct KCfg {
     pub register_fail: Option<u32>,
     /// Percent chance a CLOSE fails with EIO (descriptor still closed).
     pub p_close_err: u32,
+    /// Per cent: a request is refused at submission time (prep stage).
+    pub p_prep_fail: u32,
+    /// Per cent: the notification of a zero-copy send is still outstanding
+    /// after IORING_REGISTER_SYNC_CANCEL (the network stack holds the pages).
+    pub p_notif_survives: u32,
+    /// A kernel older than 6.6: IORING_SETUP_NO_SQARRAY is refused (EINVAL);
+    /// without the flag the submission index array is in use.
+    pub old_kernel: bool,
     /// SYNC_CANCEL lets ops finish instead of cancelling, percent.
     pub p_sync_cancel_finish: u32,
     /// Percent chance IORING_OP_PIPE is "not supported" (EINVAL): a10 falls
@@ -92,6 +100,9 @@ impl Default for KCfg {
             madvise_fail: None,
             register_fail: None,
             p_close_err: 0,
+            p_prep_fail: 0,
+            p_notif_survives: 0,
+            old_kernel: false,
             p_sync_cancel_finish: 0,
             p_pipe_einval: 0,
             pool_pick_any: false,
@@ -257,6 +268,10 @@ pub struct Pbuf {
     pub handed_out: Vec<u16>,
     pub pins: Vec<usize>,
     pub total_released: u64,
+    /// The newest ring entry seen: (address, buffer id).
+    pub last_entry: Option<(usize, u16)>,
+    /// Unregistering was refused (single issuer): registered until the ring closes.
+    pub refused: bool,
 }
 
 impl Pbuf {
@@ -281,6 +296,8 @@ pub struct Published {
     pub sqe: Sqe,
     pub by_op: u32,
     pub during: During,
+    /// Published before the harness started to drop a Ring.
+    pub before_drop: bool,
 }
 
 pub struct Ring {
@@ -306,6 +323,13 @@ pub struct Ring {
     pub deferred: VecDeque<Cqe>,
     pub pbufs: BTreeMap<u16, Pbuf>,
     pub files: Option<Vec<Option<u32>>>,
+    /// Direct slots holding a descriptor with special read semantics
+    /// (signalfd): slot -> the descriptor it was registered from.
+    pub slot_src: BTreeMap<u32, i32>,
+    /// The only thread that may enter a single-issuer ring (if named).
+    pub submitter: Option<usize>,
+    /// Number of io_uring_enter calls with IORING_ENTER_GETEVENTS.
+    pub getevents_enters: u64,
     pub delivered_slots: Vec<u32>,
     pub published: VecDeque<Published>,
     pub posted: u64,
@@ -353,6 +377,17 @@ pub struct Kernel {
     pub full_only: Vec<i32>,
     /// The application is inside `Ring::drop`.
     pub in_ring_drop: bool,
+    /// Set by `submit` when the request was refused at submission time.
+    pub prep_refused: bool,
+    /// The harness has started to drop a Ring in this run.
+    pub ring_drop_seen: bool,
+    /// Blocks (operation state, buffers) of requests the kernel still owned
+    /// after the Ring was dropped, and how many such requests there were.
+    pub survivor_blocks: Vec<usize>,
+    pub survivor_ops: usize,
+    /// Requests of these harness operations never complete on their own (a
+    /// read from an empty pipe): only cancellation ends them.
+    pub silent_by_op: Vec<u32>,
     /// Kernel waits (blocking part of io_uring_enter) of multi-threaded
     /// runs: (thread, start stamp, end stamp, expired).
     pub wait_log: Vec<(usize, u64, u64, bool)>,
@@ -429,6 +464,11 @@ pub fn reset(cfg: KCfg) {
             held_ranges: Vec::new(),
             full_only: Vec::new(),
             in_ring_drop: false,
+            prep_refused: false,
+            ring_drop_seen: false,
+            survivor_blocks: Vec::new(),
+            survivor_ops: 0,
+            silent_by_op: Vec::new(),
             wait_log: Vec::new(),
         });
         SEQ.store(0, Ordering::Release);
@@ -505,6 +545,9 @@ impl Ring {
     }
     pub(crate) fn inflight_notif_pending(&self, kid: u32) -> bool {
         self.inflight.iter().any(|i| i.kid == kid && i.notif_pending)
+    }
+    pub(crate) fn inflight_pins(&self, kid: u32) -> Vec<usize> {
+        self.inflight.iter().find(|i| i.kid == kid).map_or_else(Vec::new, |i| i.pins.clone())
     }
     pub(crate) fn inflight_take(&mut self, kid: u32) -> Option<Inflight> {
         let pos = self.inflight.iter().position(|i| i.kid == kid)?;
@@ -680,6 +723,7 @@ impl Kernel {
         match table.get_mut(slot as usize) {
             Some(s @ Some(_)) => {
                 *s = None;
+                self.rings[ring].slot_src.remove(&slot);
                 stats::inc(C::probe_direct_close);
                 ev!("k close direct slot {slot} via {how}");
                 self.rings[ring].delivered_slots.retain(|x| *x != slot);
@@ -726,6 +770,11 @@ impl Kernel {
             return fail(e);
         }
         if p.resv != [0; 3] {
+            return fail(libc::EINVAL);
+        }
+        if self.cfg.old_kernel && p.flags & SETUP_NO_SQARRAY != 0 {
+            stats::inc(C::fault_old_kernel);
+            ev!("k setup -> EINVAL (this kernel does not know IORING_SETUP_NO_SQARRAY)");
             return fail(libc::EINVAL);
         }
         let known = SETUP_IOPOLL
@@ -854,6 +903,12 @@ impl Kernel {
             )
         };
 
+        // Without NO_SQARRAY the kernel takes the index of the next entry from
+        // an array of `sq` words behind the ring words (all zero at first).
+        let mut sq_off = sq_off;
+        if p.flags & SETUP_NO_SQARRAY == 0 {
+            sq_off.array = 256;
+        }
         let fd = unsafe { libc::eventfd(0, libc::EFD_CLOEXEC) };
         if fd < 0 {
             return fail(libc::ENFILE);
@@ -889,6 +944,9 @@ impl Kernel {
             deferred: VecDeque::new(),
             pbufs: BTreeMap::new(),
             files: None,
+            slot_src: BTreeMap::new(),
+            submitter: None,
+            getevents_enters: 0,
             delivered_slots: Vec::new(),
             published: VecDeque::new(),
             posted: 0,
@@ -950,6 +1008,19 @@ impl Kernel {
             return Some(libc::MAP_FAILED);
         }
         let ring = &mut self.rings[r];
+        // The last byte of each region the application has to reach.
+        let needed = match off {
+            OFF_SQ_RING => {
+                let o = &ring.sq_off;
+                [o.head, o.tail, o.ring_mask, o.ring_entries, o.flags, o.dropped].into_iter().max().unwrap_or(0) as usize + 4
+            }
+            OFF_CQ_RING => {
+                let o = &ring.cq_off;
+                let words = [o.head, o.tail, o.ring_mask, o.ring_entries, o.overflow, o.flags].into_iter().max().unwrap_or(0) as usize + 4;
+                words.max(o.cqes as usize + 16 * ring.cq_entries as usize)
+            }
+            _ => 64 * ring.sq_entries as usize,
+        };
         let mem = match off {
             OFF_SQ_RING => &mut ring.sq_mem,
             OFF_CQ_RING => &mut ring.cq_mem,
@@ -965,6 +1036,18 @@ impl Kernel {
         }
         if mem.mapped.is_some() || mem.dead {
             harness_error(format!("ring#{r} region {off:#x} mapped twice"));
+        }
+        // A prefix may be mapped, but what lies behind its last page is out of
+        // the application's reach (the real kernel maps whole pages).
+        let pages = |n: usize| n.div_ceil(4096);
+        if pages(len) < pages(needed.min(mem.len)) {
+            violation(
+                "build.short-mapping",
+                format!(
+                    "ring#{r} region {off:#x}: {len} bytes mapped, the application needs {needed}: what lies behind page {} can never be read or written",
+                    pages(len)
+                ),
+            );
         }
         mem.mapped = Some(len);
         mem.maps += 1;
@@ -1081,6 +1164,7 @@ impl Kernel {
             return;
         };
         let (op, during) = CUR_OP.with(std::cell::Cell::get);
+        let before_drop = !self.ring_drop_seen;
         let ring = &mut self.rings[r];
         let tail = ring.sq_tail_shared();
         let idx = tail.wrapping_sub(1);
@@ -1113,6 +1197,7 @@ impl Kernel {
             sqe,
             by_op: op,
             during,
+            before_drop,
         });
         ring.seen_sq_tail = tail;
         if tail == 0 {
@@ -1142,9 +1227,23 @@ impl Kernel {
                 break;
             }
             let idx = ring.sq_head;
-            let sqe = unsafe { ring.sqe_slot(idx).read() };
+            // With an index array the entry to run is array[head & mask].
+            let slot = if ring.sq_off.array != 0 {
+                unsafe {
+                    ring.sq_mem
+                        .base
+                        .add(ring.sq_off.array as usize + 4 * (idx & (ring.sq_entries - 1)) as usize)
+                        .cast::<u32>()
+                        .read_volatile()
+                }
+            } else {
+                idx
+            };
+            let sqe = unsafe { ring.sqe_slot(slot).read() };
             // Scribble over the consumed slot: a10 must not rely on its contents.
-            unsafe { std::ptr::write_bytes(ring.sqe_slot(idx).cast::<u8>(), 0xA5, 64) };
+            if ring.sq_off.array == 0 {
+                unsafe { std::ptr::write_bytes(ring.sqe_slot(idx).cast::<u8>(), 0xA5, 64) };
+            }
             ring.sq_head = idx.wrapping_add(1);
             unsafe { store32(ring.sq_mem.base.add(ring.sq_off.head as usize), ring.sq_head) };
             let published = match ring.published.front() {
@@ -1168,12 +1267,45 @@ impl Kernel {
             };
             n += 1;
             crate::sched::progress();
+            self.prep_refused = false;
             self.submit(r, idx, sqe, by_op, during);
+            if self.prep_refused && self.rings[r].flags & SETUP_SUBMIT_ALL == 0 {
+                // io_submit_sqes: without IORING_SETUP_SUBMIT_ALL the batch ends at
+                // the first request refused at submission time; the rest of
+                // the queue waits for a later io_uring_enter.
+                ev!("k ring#{r}: submission stops after the refused request (no SUBMIT_ALL)");
+                break;
+            }
         }
         if n > 0 {
             trace(&[tag::CONSUME, n]);
         }
         n
+    }
+
+    /// C04, at the end of a run in which the Ring was dropped: everything
+    /// accepted into the submission queue before the drop started has reached
+    /// the kernel (`Ring::drop` submits what is queued).
+    pub fn check_lost_submissions(&self, r: usize) {
+        if !self.ring_drop_seen || self.rings[r].sq_mem.dead && self.rings[r].published.is_empty() {
+            return;
+        }
+        let lost: Vec<String> = self.rings[r]
+            .published
+            .iter()
+            .filter(|p| p.before_drop)
+            .map(|p| format!("#{} {}", p.idx, op_name(p.sqe.opcode())))
+            .collect();
+        if !lost.is_empty() {
+            violation(
+                "sq.lost",
+                format!(
+                    "ring#{r}: {} submission(s) accepted before the Ring was dropped never reached the kernel: {}",
+                    lost.len(),
+                    lost.join(", ")
+                ),
+            );
+        }
     }
 
     pub fn record(&self, kid: u32) -> &OpRecord {
@@ -1304,8 +1436,22 @@ impl Kernel {
             return EnterResult::Done(fail(libc::EBADF));
         };
         self.rings[r].enters += 1;
+        if flags & ENTER_GETEVENTS != 0 {
+            self.rings[r].getevents_enters += 1;
+        }
         if !self.rings[r].enabled {
             return EnterResult::Done(fail(libc::EBADFD));
+        }
+        // IORING_SETUP_SINGLE_ISSUER: only the task the ring belongs to may
+        // enter (the scenario names that thread once it runs).
+        if self.rings[r].flags & SETUP_SINGLE_ISSUER != 0 {
+            if let Some(t) = self.rings[r].submitter {
+                if crate::sched::tid() != t {
+                    stats::inc(C::fault_single_issuer_refused);
+                    ev!("k enter ring#{r} from another thread -> EEXIST (single issuer)");
+                    return EnterResult::Done(fail(libc::EEXIST));
+                }
+            }
         }
         let known = ENTER_GETEVENTS | ENTER_SQ_WAKEUP | ENTER_SQ_WAIT | ENTER_EXT_ARG;
         if flags & !known != 0 {
@@ -1487,6 +1633,32 @@ impl Kernel {
         let Some(r) = self.ring_by_fd(fd) else {
             return fail(libc::EBADF);
         };
+        // IORING_SETUP_SINGLE_ISSUER: io_uring_register is refused for every
+        // thread but the ring's own (once the scenario has named it).
+        if self.rings[r].flags & SETUP_SINGLE_ISSUER != 0 {
+            if let Some(t) = self.rings[r].submitter {
+                if crate::sched::tid() != t {
+                    stats::inc(C::fault_single_issuer_refused);
+                    ev!("k register op {opcode} on ring#{r} from another thread -> EEXIST (single issuer)");
+                    if opcode == UNREGISTER_PBUF_RING {
+                        // The buffer ring stays registered (until the ring is
+                        // closed): say so when its memory is freed regardless.
+                        let reg = unsafe { arg.cast::<BufReg>().read() };
+                        if let Some(p) = self.rings[r].pbufs.get_mut(&reg.bgid) {
+                            p.refused = true;
+                            for pin in &p.pins {
+                                alloc::unpin(*pin);
+                                let _ = alloc::pin(
+                                    *pin,
+                                    "buffer pool memory still registered with the kernel (IORING_UNREGISTER_PBUF_RING was refused: single-issuer ring, other thread)",
+                                );
+                            }
+                        }
+                    }
+                    return fail(libc::EEXIST);
+                }
+            }
+        }
         if self.cfg.register_fail == Some(opcode) {
             stats::inc(C::fault_register_fail);
             ev!("k register op {opcode} -> ENOMEM (injected)");
@@ -1574,6 +1746,8 @@ impl Kernel {
                         handed_out: Vec::new(),
                         pins,
                         total_released: 0,
+                        last_entry: None,
+                        refused: false,
                     },
                 );
                 ev!("k register pbuf ring entries={}", reg.ring_entries);
@@ -1604,7 +1778,23 @@ impl Kernel {
                 if n > 0 {
                     stats::inc(C::probe_ring_dropped_with_inflight);
                 }
+                let mut n = n;
                 for kid in kids {
+                    if self.rings[r].inflight_notif_pending(kid)
+                        && tape::chance(site::CANCEL, self.cfg.p_notif_survives, 100)
+                    {
+                        // The request itself is complete, only its pages are still
+                        // referenced: nothing to cancel, the notification comes
+                        // whenever the network stack lets go (or never).
+                        stats::inc(C::fault_notif_survives_cancel);
+                        crate::report::nontrivial();
+                        n -= 1;
+                        let pins = self.rings[r].inflight_pins(kid);
+                        self.survivor_blocks.extend(pins);
+                        self.survivor_ops += 1;
+                        ev!("k sync cancel: notification of k{kid} stays outstanding");
+                        continue;
+                    }
                     let finish = tape::chance(site::CANCEL, self.cfg.p_sync_cancel_finish, 100);
                     if finish {
                         self.complete_kid(r, kid, true);
@@ -1666,7 +1856,13 @@ impl Kernel {
             return Some(if res < 0 { fail(-res) } else { 0 });
         }
         // The ring's own descriptor (eventfd) and real descriptors (inotify,
-        // signalfd) are closed for real.
+        // signalfd) are closed for real; the ledger of real descriptors a10
+        // owns learns about it.
+        if let Some(pos) = self.foreign_fds.iter().position(|f| *f == fd) {
+            self.foreign_fds.swap_remove(pos);
+            stats::inc(C::probe_sync_close_fallback);
+            ev!("k close real descriptor via close(2)");
+        }
         None
     }
 
@@ -1681,6 +1877,12 @@ impl Kernel {
             let newer = self.rings[i + 1..].iter().any(|r| r.fd == fd);
             if newer || unsafe { libc::fcntl(fd, libc::F_GETFD) } == -1 {
                 self.rings[i].fd_closed = true;
+                // The ring is gone: whatever it still referenced is let go.
+                for inf in std::mem::take(&mut self.rings[i].inflight) {
+                    for p in inf.pins {
+                        alloc::unpin(p);
+                    }
+                }
             }
         }
     }
